@@ -738,7 +738,9 @@ func c17Fresh(c *Ctx, i int, r *gen.R) {
 	if p := os.Getenv("VERIF_PLAIN_EXE"); p != "" {
 		exe = p // built without -race, so that the runtime's deadlock detector is in force (see run.sh)
 	}
-	out, err := exec.Command(exe, "-aux", "c17fresh", mode, name).CombinedOutput()
+	var out []byte
+	var err error
+	waitingForChild(func() { out, err = exec.Command(exe, "-aux", "c17fresh", mode, name).CombinedOutput() })
 	c.Rec.Eval(gen.Hash64("fresh", mode, name), true)
 	c.Rec.Count("fresh_process_probes", 1)
 	s := strings.TrimSpace(string(out))
